@@ -101,6 +101,7 @@ type batch struct {
 	nextK  map[string]int
 	canary bool
 	leaked []string // host variables visible to a script or its children with the host's value
+	miss   []string // documented / Setup / pass-through variables a script did not see as promised
 }
 
 func (b *batch) event(e Event) {
@@ -113,6 +114,17 @@ func scriptOf(ts *testscript.TestScript) string { return ts.Name() }
 
 // host variables a script may legitimately see with the host's value
 var passThrough = map[string]bool{"PATH": true, "GOCOVERDIR": true, "GORACE": true}
+
+func (b *batch) missing(what string) {
+	b.mu.Lock()
+	defer b.mu.Unlock()
+	for _, n := range b.miss {
+		if n == what {
+			return
+		}
+	}
+	b.miss = append(b.miss, what)
+}
 
 func (b *batch) leak(name string) {
 	b.mu.Lock()
@@ -144,6 +156,13 @@ func (b *batch) cmds() map[string]func(ts *testscript.TestScript, neg bool, args
 				b.mu.Lock()
 				b.canary = true
 				b.mu.Unlock()
+			}
+			// what the statement says a script does see: Setup's additions, the pass-through variables, the documented ones
+			for n, want := range map[string]string{"SETUP_ADDED": "yes", "GOCOVERDIR": os.Getenv("GOCOVERDIR"), "GORACE": os.Getenv("GORACE"),
+				"WORK": work, "HOME": "/no-home", "TMPDIR": filepath.Join(work, ".tmp"), "devnull": os.DevNull, "/": "/", ":": ":", "$": "$", "exe": ""} {
+				if got := ts.Getenv(n); got != want {
+					b.missing(fmt.Sprintf("%s=%q (want %q)", n, got, want))
+				}
 			}
 			// any host variable (other than the documented pass-through) visible with the host's value is a leak
 			for _, kv := range os.Environ() {
@@ -333,6 +352,7 @@ type RunRec struct {
 	Host     []string            `json:"host"` // changes of the host process state
 	Canary   bool                `json:"canary"`
 	Leaked   []string            `json:"leaked"`
+	Missing  []string            `json:"missing"`
 	RootLast bool                `json:"rootlast"` // the shared root was removed after every script's end
 	Count    int                 `json:"count"`
 	Detail   string              `json:"detail,omitempty"`
@@ -376,10 +396,13 @@ func runBatch(mode string, cfg Config, strat vsched.Strategy) *RunRec {
 	b := &batch{tests: map[string]*recT{}, root: gotmp, nextK: map[string]int{}}
 	os.Setenv("GOTMPDIR", gotmp)
 	os.Setenv("VERIF_CANARY", "host-secret")
+	os.Setenv("GOCOVERDIR", filepath.Join(base, "cov")) // documented pass-through variables
+	os.Setenv("GORACE", "atexit_sleep_ms=7")
 	cwd0, _ := os.Getwd()
 	env0 := strings.Join(os.Environ(), "\n")
 	// a deadline far in the future: RunT then runs its scripts under a shared context with a timeout
-	p := testscript.Params{Dir: sdir, Cmds: b.cmds(), Deadline: time.Now().Add(2 * time.Hour)}
+	p := testscript.Params{Dir: sdir, Cmds: b.cmds(), Deadline: time.Now().Add(2 * time.Hour),
+		Setup: func(e *testscript.Env) error { e.Setenv("SETUP_ADDED", "yes"); return nil }}
 	if cfg.How == "workdirroot" {
 		p.WorkdirRoot = filepath.Join(gotmp, "given-root")
 		os.MkdirAll(p.WorkdirRoot, 0o777)
@@ -409,7 +432,7 @@ func runBatch(mode string, cfg Config, strat vsched.Strategy) *RunRec {
 	vos.SetInterceptor(nil)
 	rec := &RunRec{Mode: mode, Scripts: cfg.Scripts, Retain: cfg.Retain, Events: b.events, End: out.Status, Obs: map[string][]string{},
 		Verdict: map[string]string{}, Reg: map[string][]int{}, Ran: map[string][]int{}, Left: []string{}, Live: []int{}, Host: []string{},
-		Canary: b.canary, Leaked: append([]string{}, b.leaked...), Count: 1, Solo: map[string][]string{}, SoloV: map[string]string{}}
+		Canary: b.canary, Leaked: append([]string{}, b.leaked...), Missing: append([]string{}, b.miss...), Count: 1, Solo: map[string][]string{}, SoloV: map[string]string{}}
 	for _, sc := range cfg.Scripts {
 		rec.Obs[sc.Name] = []string{}
 		rec.Reg[sc.Name] = []int{}
@@ -460,9 +483,15 @@ func runBatch(mode string, cfg Config, strat vsched.Strategy) *RunRec {
 		rec.Left = append(rec.Left, n)
 	}
 	for _, pid := range b.pids {
-		if syscall.Kill(pid, 0) == nil {
-			rec.Live = append(rec.Live, pid)
-			syscall.Kill(pid, syscall.SIGKILL)
+		// pids are reused quickly: a recorded pid counts as alive only if it still is a child of this process
+		if st, err := os.ReadFile(fmt.Sprintf("/proc/%d/stat", pid)); err == nil {
+			if i := strings.LastIndex(string(st), ")"); i > 0 {
+				f := strings.Fields(string(st)[i+1:])
+				if len(f) > 1 && f[1] == fmt.Sprint(os.Getpid()) {
+					rec.Live = append(rec.Live, pid)
+					syscall.Kill(pid, syscall.SIGKILL)
+				}
+			}
 		}
 	}
 	if cwd1, _ := os.Getwd(); cwd1 != cwd0 {
@@ -516,7 +545,7 @@ func (c *collector) add(r *RunRec) {
 	c.runs++
 	evs := make([]Event, len(r.Events))
 	copy(evs, r.Events)
-	b, _ := json.Marshal([]interface{}{r.Scripts, r.Retain, evs, r.End, r.Obs, r.Verdict, r.Ran, r.Left, len(r.Live), r.Host, r.Canary, r.Leaked, r.RootLast})
+	b, _ := json.Marshal([]interface{}{r.Scripts, r.Retain, evs, r.End, r.Obs, r.Verdict, r.Ran, r.Left, len(r.Live), r.Host, r.Canary, r.Leaked, r.Missing, r.RootLast})
 	k := string(b)
 	if t, ok := c.seen[k]; ok {
 		t.Count++
